@@ -18,8 +18,8 @@ import YaegiVerif.Model.Share
     append-alias-args        `append(s, a, b…)` where an operand after the first is an element / field /
                              pointee expression                                               F04-6, repaired by b312e89
     nil-deref-map-store      `m[k] = *p`                                                        F04-10, repaired by 93fb945
-    recv-assign-var / -elem  `x = <-c`, `a[i] = <-c`, `s.f = <-c`, `*p = <-c`                      F08-7, repaired by 177a151
-    assert2-define-in-loop / assert2-fails   `v, ok := x.(T)` in a loop body / a failing assertion   F04-14, repaired by 2fe0a18
+    recv-assign-var / -elem  `x = <-c`, `a[i] = <-c`, `s.f = <-c`, `*p = <-c`                      F08-7, repaired by 212dc2e
+    assert2-define-in-loop / assert2-fails   `v, ok := x.(T)` in a loop body / a failing assertion   F04-14, repaired by daee744
     complit-assign-var / complit   `p = P{p.Y, p.X}`: a literal with expression operands (that may read the destination);
                              never diverged on the repository's own history — the shape of seeded change C04-3
     range-ptr-array          `for i, v := range p` with p a pointer to an array (shape: source is not decidable
